@@ -161,6 +161,17 @@ func Index(opts Options, bopts index.Options) error {
 		}
 	}
 
+	if builder == nil {
+		// The archive has no regular files (it is empty or holds only directories and
+		// links), so add never ran and there is no builder yet. Create one so that we
+		// still write an (empty) index, like we do for an empty directory, instead of
+		// dereferencing a nil builder.
+		builder, err = index.NewBuilder(bopts)
+		if err != nil {
+			return err
+		}
+	}
+
 	return builder.Finish()
 }
 
